@@ -19,6 +19,9 @@ def run(ctx) -> None:
     template.rule_G(ctx)
     template.rule_Y2iii(ctx, "G8")     # a stub method body must be able to run: names it uses are imported
     rule_G6(ctx, "G6")
+    from .c12 import rule_G12
+    ctx.rules_run.append("G12")
+    rule_G12(ctx)
     ctx.rules_run.append("G9")
     template.rule_G9(ctx)
     ctx.rules_run.append("G11")
